@@ -1,18 +1,18 @@
 SPECIFICATION Spec
 CONSTANTS
-  Reqs = {"r1", "r2"}
-  QCap = 1
+  Reqs = {"r1", "a2"}
+  QCap = 2
   FixHandoff = TRUE
   FixSend = TRUE
   FixReader = TRUE
-  Banned = {"r2"}
-  Asking = {}
-  AskAnswersInHand = TRUE
-  BufCap = 3
+  Banned = {}
+  Asking = {"a2"}
+  AskAnswersInHand = FALSE
+  BufCap = 1
   FixFlushOnStop = TRUE
   MaxResets = 1
   WithStop = TRUE
   Det = FALSE
 INVARIANTS TypeOK AtMostOnce NoLostRequest NoStuckSender PairingFIFO
-PROPERTIES Answered QuitLeadsToDone StopReturns
+PROPERTIES QuitLeadsToDone
 CHECK_DEADLOCK FALSE
